@@ -32,11 +32,13 @@ PROGS = {
     'raise': "print('before')\nraise ValueError('x')\nprint('after')",
     'sep': "print('x', 'y', sep='-', end='!\\n')\nprint('  lead')",
     'onlyspace': "print('   ')",
+    'ctrl': "print('x\\ry', end='\\r')\nprint('p\\x0cq\\x0bz')",
 }
 OPS = [('run', k) for k in PROGS] + [
     ('call', 'sil'), ('call', 'pr'), ('call', 'rd'), ('eval', '1+1'), ('clear_output',),
     ('set_input', ['i1', 'i2']), ('set_input', 'solo'), ('queue_input', 'q1', 'q2'), ('clear_input',),
     ('set_input_noclear', ['k1']), ('set_input', []),
+    ('run_inputs', 'read2', []), ('run_inputs', 'read1', ['r1', 'r2']), ('call_inputs', 'rd', ''),
 ]
 PROMPTS = ['', 'p>', 'one?', 'two?']
 CAL = {}
@@ -108,6 +110,12 @@ class Model:
             self.execute("_ = %s()" % op[1])
         elif k == 'eval':
             self.execute("_ = %s" % op[1])
+        elif k == 'run_inputs':
+            self.inputs = list(op[2])
+            self.execute(PROGS[op[1]])
+        elif k == 'call_inputs':
+            self.inputs = [op[2]]
+            self.execute("_ = %s()" % op[1])
         elif k == 'clear_output':
             self.raw = ""
             self.lines = []
@@ -129,6 +137,10 @@ def apply_real(op):
         sb_cmds.call(op[1])
     elif k == 'eval':
         sb_cmds.evaluate(op[1])
+    elif k == 'run_inputs':
+        sb_cmds.run(PROGS[op[1]], inputs=list(op[2]))
+    elif k == 'call_inputs':
+        sb_cmds.call(op[1], inputs=op[2])
     elif k == 'clear_output':
         sb_cmds.clear_output()
     elif k == 'set_input':
@@ -141,7 +153,7 @@ def apply_real(op):
         sb_cmds.clear_input()
 
 
-EXEC = ('run', 'call', 'eval')
+EXEC = ('run', 'call', 'eval', 'run_inputs', 'call_inputs')
 
 
 def make_body(max_ops):
